@@ -1,7 +1,7 @@
 """C15 — script arguments, functions, `source` and exit statuses behave as documented.
 
 A. positional parameters: ALL argument lists of length 0..2 (thorough 0..3) over {x, 'a b', $, 'q', empty; single
-   arguments and thorough also a;b a|b >f a& backslash #c} x the
+   arguments and thorough also a;b a|b >f a& backslash #c " ` $(cmd) — a command substitution in a VALUE must not run} x the
    reference forms $0 $1 ${2} $3 $9 $@ "$@" p$1s "p${1}s" $1$2 '$1' in a script frame and in a function frame, as
    arguments of a command and inside the condition line of `if` and `while`; A'': `$1 WORD ${2}` with WORD = every
    metacharacter in every quoting style (the positional pass re-renders the line: WORD must come out unchanged);
@@ -16,9 +16,10 @@ import os
 
 from .. import common
 
-ARGS = ['x', 'a b', '$', "'q'", '', 'a;b', 'a|b', '>f', 'a&', '\\', '#c']
+ARGS = ['x', 'a b', '$', "'q'", '', 'a;b', 'a|b', '>f', 'a&', '\\', '#c', '"', '`', '$(vh-mark RAN 0)']
+ARGS_T3 = ARGS[:11]                              # thorough: lists of three arguments over the first eleven values
 ARGS_QUICK2 = ['x', 'a b', '$', "'q'", '']      # quick: lists of two arguments over the first five values only
-SPECIAL = [('$', 'value-with-dollar'), ('\\', 'value-with-backslash'), ("'", 'value-with-quote-character'), (';', 'value-with-semicolon'), ('|', 'value-with-pipe'), ('>', 'value-with-redirection-character'),
+SPECIAL = [('$(', 'value-with-command-substitution'), ('$', 'value-with-dollar'), ('"', 'value-with-double-quote'), ('`', 'value-with-backquote'), ('\\', 'value-with-backslash'), ("'", 'value-with-quote-character'), (';', 'value-with-semicolon'), ('|', 'value-with-pipe'), ('>', 'value-with-redirection-character'),
            ('&', 'value-with-ampersand'), ('#', 'value-with-hash')]
 REFS = ['$0', '$1', '${2}', '$3', '$9', '$@', '"$@"', 'p$1s', '"p${1}s"', '$1$2', "'$1'"]
 
@@ -155,7 +156,7 @@ def run(rep, tier):
     # A
     arglists = [()]
     for n in range(1, nargs + 1):
-        arglists += list(itertools.product(ARGS if (n == 1 or tier == 'thorough') else ARGS_QUICK2, repeat=n))
+        arglists += list(itertools.product(ARGS if n == 1 else ARGS_QUICK2 if tier != 'thorough' else ARGS if n == 2 else ARGS_T3, repeat=n))
     for args in arglists:
         for ref in REFS:
             jobs.append(({'main.sh': 'vh-argv %s\n' % ref}, args, None))
